@@ -779,15 +779,21 @@ class LifeRun(Base):
         except Exception as exc:  # noqa: however a failure is reported, it is a failed upgrade
             outcome = "failed:" + type(exc).__name__
             stats.probe("upgrade_failure_not_wrapped")
+        # the list a correct upgrade gets from the origin during this upgrade: a
+        # function of what is published and of the injected fault, not of what
+        # the code chose to fetch (a stale body cached by the code is the code's)
         served = None
-        if 0 in self.net.served and 1 in self.net.served:
+        body0, body1 = self.net.would_serve(0), self.net.would_serve(1)
+        if body0 is not None and body1 is not None:
             try:
-                text = self.net.served[0].decode("utf-8")
-                self.net.served[1].decode("utf-8")
+                text = body0.decode("utf-8")
+                body1.decode("utf-8")
                 pub, priv = psl.parse_psl_text(text)
                 served = pub + priv
             except UnicodeDecodeError:
                 served = None
+        if self.net.requests.count(0) == 0 and outcome == "ok":
+            stats.probe("upgrade_ok_without_fetching_the_suffix_list")
         stats.event("OP|upgrade|%s|%s|%s|writes=%d" % (transient, canon(fault), outcome, self.disk.writes))
         if outcome == "crash":
             self.persisted = None
@@ -799,7 +805,12 @@ class LifeRun(Base):
         if outcome == "ok":
             stats.probe("upgrade_ok_transient" if transient else "upgrade_ok_persisted")
             if served is None:
-                raise HarnessError("upgrade succeeded without both downloads being served")
+                # the origin could not have served two decodable bodies, yet
+                # upgrade() reports success: only O1 can be evaluated
+                stats.probe("upgrade_ok_although_origin_failed")
+                self.check_current("upgrade")
+                self.state("upgrade_ok")
+                return outcome
             if not transient and self.disk.opens == 0:
                 # the code persisted through a path the disk seam does not see:
                 # take the real scratch file as the durable state
@@ -817,7 +828,7 @@ class LifeRun(Base):
                 self.persisted = None
             if not transient and fault is None:
                 try:
-                    tlds = [t.lower() for t in self.net.served[1].decode("utf-8").split("\n") if t and not t.startswith("#")]
+                    tlds = [t.lower() for t in body1.decode("utf-8").split("\n") if t and not t.startswith("#")]
                 except UnicodeDecodeError:
                     tlds = []
                 self.persisted = (served, tlds)
